@@ -100,6 +100,8 @@ class PickDomain(ereduce.ReduceDomain):
                 return ereduce.IterObj(recv.children)
             if name == "child":
                 (i,) = it.args(e, env)
+                if not isinstance(i, int) or not 0 <= i < len(recv.children):
+                    raise Panic("child index %r out of range" % (i,))
                 return recv.children[i]
         if name == "level" and isinstance(recv, Enum) and recv.path in (NODE_INNER, NODE_TERMINAL):
             return recv.args[0].level if recv.path == NODE_INNER and isinstance(recv.args[0], SNode) else (2 ** 32 - 1)
